@@ -272,6 +272,8 @@ def judge_into(events, sm):
                     sm.notes['repair:' + k] = sm.notes.get('repair:' + k, 0) + 1
                 if e['muts']:
                     sm.notes['repair:mutated'] = sm.notes.get('repair:mutated', 0) + 1
+                    if [m for m in e['mods'] if m != 'none']:
+                        sm.notes['repair:mutated-terminus'] = sm.notes.get('repair:mutated-terminus', 0) + 1
                     if len(e['muts']) >= 2:
                         sm.notes['repair:mutated-twice-same-target'] = sm.notes.get('repair:mutated-twice-same-target', 0) + 1
                 if [m for m in e['mods'] if m not in ('none', 'N-ter', 'C-ter')]:
@@ -423,7 +425,7 @@ def cli_cases(tier, rng):
                     reqs.append(['-modify', '%s%s:%s' % (ch, rng.choice(['nter', 'cter']), rng.choice(['NH2-ter', 'COOH-ter', 'none', 'N-ter', 'C-ter']))])
                     continue
                 nm = rng.choice(names + [''])
-                num = rng.choice(['', '', '2', '3', '10', '17', '44'])
+                num = rng.choice(['', '', '2', '10', '13', '17', '44'])
                 if not nm and not num and not ch:
                     nm = 'GLY'
                 target = rng.choice([n for n in ['GLY', 'ALA', 'SER'] if n != nm])
@@ -441,19 +443,8 @@ def cli_cases(tier, rng):
 # what the command-line family must have exercised at least once (letters of MutMod!NoteMarks, outcomes, repair effects)
 CLI_MUST = ['cli:m', 'cli:u', 'cli:e', 'cli:c', 'cli:i', 'cli:s', 'cli:t', 'cli:x', 'cli:d', 'cli-outcome:done', 'cli-outcome:annotate-error',
             'cli-outcome:repair-error', 'itp:mutated-residues', 'repair:mutated', 'repair:removed', 'repair:readded', 'repair:modified',
-            'repair:mutated-twice-same-target']
+            'repair:mutated-twice-same-target', 'repair:mutated-terminus']
 RUN_MUST = ['run:m', 'run:u', 'run:e', 'run:i', 'run:s', 'run:t', 'run:x', 'run:d']
-
-
-def _known_terminus(kind, sc):
-    """Known finding: a residue carrying a mutation AND a modification keeps its old residue name on the atoms matched to the
-    modification's own atoms."""
-    return (sc.get('kind') == 'repairx' and sc.get('verdict') == 'residue-not-renamed-to-the-requested-block'
-            and bool(sc.get('muts')) and any(m != 'none' for m in sc.get('mods', []))
-            and any(o['resname'] != sc['muts'][0] for o in sc.get('out', [])) and all(o['resname'] in (sc['muts'][0], sc['resname']) for o in sc.get('out', [])))
-
-
-SIGNATURES = {'C19-mutated-terminus-resname': _known_terminus}
 
 
 def run(tier, seed, ev, vd):
